@@ -254,6 +254,29 @@ func genC03(w *World, r *Rng, tier string) {
 				fillAll(w, src, 40+10*a)
 				// restore the source length after fillAll (fillAll does not change it)
 			}
+			// partially filled last frames on either side (single-sample appends)
+			if ch > 1 && r.Intn(3) == 0 {
+				for n := r.Range(1, ch-1); n > 0 && w.views[dst].Len() < w.views[dst].Cap(); n-- {
+					w.AppendSample(dst, small(k, 70+n))
+				}
+				w.st.branch("dst-partial-frame")
+			}
+			if ch > 1 && src != dst && r.Intn(3) == 0 {
+				for n := r.Range(1, ch-1); n > 0 && w.views[src].Len() < w.views[src].Cap(); n-- {
+					w.AppendSample(src, small(k, 80+n))
+				}
+				w.st.branch("src-partial-frame")
+			}
+			// a source that fills the destination's capacity exactly, counted in samples (both last
+			// frames partial when the destination's is)
+			if rem := w.views[dst].Cap() - w.views[dst].Len(); ch > 1 && src != dst && rem > 0 && rem%ch != 0 && r.Bool() {
+				src = w.Alloc(k, false, ch, rem/ch, rem/ch+1)
+				fillAll(w, src, 45)
+				for n := 0; n < rem%ch; n++ {
+					w.AppendSample(src, small(k, 85+n))
+				}
+				w.st.branch("exact-sample-fit")
+			}
 			before := w.views[dst].Cap()
 			need := w.views[dst].Len() + w.views[src].Len()
 			if before < need {
@@ -305,7 +328,12 @@ func genC04(w *World, r *Rng, tier string) {
 		_ = alias
 		calls := r.Range(0, 3*w.views[v].Cap()+3)
 		for i := 0; i < calls; i++ {
-			w.AppendSample(v, patt(k, 50+i))
+			if r.Intn(3) == 0 {
+				w.AppendSample(v, 0) // a zero over whatever the spare capacity held before
+				w.st.branch("append-zero")
+			} else {
+				w.AppendSample(v, patt(k, 50+i))
+			}
 		}
 		w.st.shape("calls%d/cap%d", minInt(calls, 20), w.views[v].Cap())
 	}
@@ -494,8 +522,7 @@ func c12Alphabet(w *World, k Kind) []func() {
 		ops = append(ops, func() { w.Write(v, k, []uint64{small(k, 5), small(k, 6), small(k, 4)}) })
 		for _, s := range live {
 			s := s
-			partial := b.Channels() > 0 && (b.Len()%b.Channels() != 0 || w.views[s].Len()%b.Channels() != 0)
-			if w.views[s].Channels() == b.Channels() && (!partial || b.Cap() >= b.Len()+w.views[s].Len()) {
+			if w.views[s].Channels() == b.Channels() {
 				ops = append(ops, func() { w.Append(v, s) })
 			}
 		}
@@ -606,10 +633,6 @@ func genC12(w *World, r *Rng, tier string) {
 					}
 				}
 				s2 := cands[r.Intn(len(cands))]
-				if b.Channels() > 0 && (b.Len()%b.Channels() != 0 || w.views[s2].Len()%b.Channels() != 0) &&
-					b.Cap() < b.Len()+w.views[s2].Len() {
-					continue // growth of a partially filled frame is outside the property (and C03)
-				}
 				w.Append(v, s2)
 			}
 		}
@@ -683,6 +706,26 @@ func genC14(w *World, r *Rng, tier string) {
 				// out-of-range index
 				if r.Intn(3) == 0 {
 					w.ChanGet(v, r.Intn(ch), b.Length()+r.Range(0, 2))
+				}
+				// the parent grows in place after the channel views were taken: the views (kept by the
+				// harness since their first use) must report the parent's new length and reach the new samples
+				if b.Len() < b.Cap() {
+					n := r.Range(1, minInt(b.Cap()-b.Len(), 2*ch+1))
+					for a := 0; a < n; a++ {
+						w.AppendSample(v, small(k, 60+a))
+					}
+					w.st.branch("chan-after-append")
+					for c := 0; c < ch; c++ {
+						w.ChanShape(v, c)
+						for i := 0; i < b.Length(); i++ {
+							w.ChanGet(v, c, i)
+						}
+					}
+					if b.Length() > 0 {
+						c, i := r.Intn(ch), b.Length()-1
+						w.ChanSet(v, c, i, small(k, 91))
+						w.ChanGet(v, c, i)
+					}
 				}
 			}
 		}
